@@ -45,9 +45,17 @@ def do_ie(c):
 
 def do_isi(c):
     x = torch.tensor(c["data"], dtype=torch.bool).reshape(c["shape"])
-    r = isi(x, c["dt"], time_first=c["time_first"])
+    if c.get("default_layout"):
+        # the documented default: time first (the argument is NOT passed)
+        assert c["time_first"]
+        r = isi(x, c["dt"])
+    else:
+        r = isi(x, c["dt"], time_first=c["time_first"])
     # flatten the population axes: (C-1, M) when time first, (M, C-1) when time last
     m = int(c["m"])
+    lead = r.shape[0] if c["time_first"] else (r.shape[-1] if r.ndim else 0)
+    if r.ndim == 0 or lead * m != r.numel() or (m and list(r.shape[1:] if c["time_first"] else r.shape[:-1]) != list(c["pop"])):
+        return {"shape": list(r.shape), "dtype": str(r.dtype), "rows2d": None, "rows": None}
     if c["time_first"]:
         r2 = r.reshape(r.shape[0], m)
     else:
@@ -166,7 +174,81 @@ def do_quad_poisson(c):
             "cdf_half": float(Poisson.cdf(T(2.5), r)), "cdf_two": float(Poisson.cdf(T(2.0), r)), "K": K}
 
 
-KINDS = {"ie": do_ie, "isi": do_isi, "vp": do_vp, "normal": do_normal, "normal_mv": do_normal_mv,
+# ------------------------------------------------------------------ dtype robustness / float32 accuracy (numeric tests)
+SD = {"int64": torch.int64, "int32": torch.int32, "bool": torch.bool, "float32": torch.float32, "float64": torch.float64}
+
+
+def mkparam(v, kind):
+    if kind == "pyfloat":
+        return float(v)
+    if kind == "pyint":
+        assert float(v) == int(v)
+        return int(v)
+    if kind == "t64_0d":
+        return torch.tensor(float(v), dtype=torch.float64)
+    if kind == "t64":
+        return torch.tensor([float(v)], dtype=torch.float64)
+    if kind == "t32":
+        return torch.tensor([float(v)], dtype=torch.float32)
+    if kind == "np64":
+        import numpy as np
+        return np.float64(v)
+    raise AssertionError(kind)
+
+
+def dist_functions(dist, sup, ps):
+    """every support-taking classmethod of the distribution, as {name: tensor}"""
+    D = {"poisson": Poisson, "normal": Normal, "lognormal": LogNormal}[dist]
+    if dist == "poisson":
+        names = ["pmf", "logpmf", "cdf", "logcdf"]
+    else:
+        names = ["pdf", "logpdf", "cdf", "logcdf"]
+    return {nm: getattr(D, nm)(sup, *ps) for nm in names}
+
+
+def tolist64(t):
+    return [float(v) for v in torch.as_tensor(t).reshape(-1).double().tolist()]
+
+
+def do_dtype(c):
+    """the same evaluation with (a) a support tensor of the requested dtype and parameters of the requested python /
+    tensor kind and (b) everything as float64 tensors (reference); both lists out"""
+    vals = c["support"]
+    sup = torch.tensor(vals, dtype=torch.float64).to(SD[c["sdtype"]])
+    ps = [mkparam(v, c["pkind"]) for v in c["params"]]
+    test = dist_functions(c["dist"], sup, ps)
+    ref = dist_functions(c["dist"], torch.tensor(vals, dtype=torch.float64),
+                         [torch.tensor([float(v)], dtype=torch.float64) for v in c["params"]])
+    return {"test": {k: tolist64(v) for k, v in test.items()}, "ref": {k: tolist64(v) for k, v in ref.items()},
+            "dtypes": {k: str(v.dtype) for k, v in test.items()}}
+
+
+def do_f32(c):
+    """python-float arguments only (the functions convert them to float32 tensors): every classmethod"""
+    dist = c["dist"]
+    D = {"poisson": Poisson, "normal": Normal, "lognormal": LogNormal}[dist]
+    ps = [float(v) for v in c["params"]]
+    out = {}
+    if c.get("support") is not None:
+        for x in c["support"]:
+            for nm, v in dist_functions(dist, float(x), ps).items():
+                out.setdefault(nm, []).append(float(v))
+    if dist == "poisson":
+        out["mean"], out["variance"] = float(D.mean(ps[0])), float(D.variance(ps[0]))
+    elif dist == "normal":
+        out["mean"], out["variance"] = float(D.mean(ps[0])), float(D.variance(ps[1]))
+    else:
+        out["mean"], out["variance"] = float(D.mean(*ps)), float(D.variance(*ps))
+    if c.get("mv") is not None:
+        l, s = D.params_mv(float(c["mv"][0]), float(c["mv"][1]))
+        if dist == "normal":
+            out["mv"] = [float(l), float(s), float(D.mean(l)), float(D.variance(s))]
+        else:
+            out["mv"] = [float(l), float(s), float(D.mean(l, s)), float(D.variance(l, s))]
+    return out
+
+
+KINDS = {"dtype": do_dtype, "f32": do_f32, "ie": do_ie, "isi": do_isi, "vp": do_vp, "normal": do_normal, "normal_mv": do_normal_mv,
          "lognormal": do_lognormal, "lognormal_mv": do_lognormal_mv, "poisson": do_poisson,
          "quad_cont": do_quad_cont, "quad_poisson": do_quad_poisson}
 
